@@ -83,14 +83,17 @@ Proof. vm_compute. repeat split. tauto. Qed.
 Definition collector_list : list (option cfmt) := map (compile_with terms_table) known_formats.
 Definition lql_list : list (option cfmt) := map (compile_with terms_table) lql_formats.
 
+Lemma in_by_eqb f l : existsb (bytes_eqb f) l = true -> In f l.
+Proof. intros H. apply existsb_exists in H as (x & Hx & E). apply bytes_eqb_eq in E. subst. exact Hx. Qed.
+
 Lemma self_of_table f : In f all_formats -> f <> dddd_format ->
   exists l cf, tokens terms_table f = Some l /\ compile_with terms_table f = Some cf /\
     forall now c rest, civil_ok l c -> sep_ok rest ->
       parse_one now cf (render_toks l c ++ rest) = Some (denotes now l c).
 Proof.
   intros Hin Hne. pose proof (format_ok_of_table f Hin Hne) as Hok.
-  destruct (tokens terms_table f) as [l|] eqn:Ht; [|unfold format_ok in Hok; rewrite Ht in Hok; discriminate].
-  destruct (compile_with terms_table f) as [cf|] eqn:Hc; [|unfold format_ok in Hok; rewrite Ht, Hc in Hok; discriminate].
+  destruct (tokens terms_table f) as [l|] eqn:Ht; [|unfold format_ok in Hok; rewrite Ht in Hok; cbv beta iota in Hok; discriminate Hok].
+  destruct (compile_with terms_table f) as [cf|] eqn:Hc; [|unfold format_ok in Hok; rewrite Ht, Hc in Hok; cbv beta iota in Hok; discriminate Hok].
   exists l, cf. repeat split. intros now c rest H1 H2. eapply format_ok_sound; eassumption.
 Qed.
 
@@ -103,7 +106,7 @@ Definition self_statement : Prop :=
 Lemma self_refuted : ~ self_statement.
 Proof.
   intros H. destruct (H dddd_format) as (l & cf & Ht & Hc & Hp).
-  { vm_compute. tauto. }
+  { apply in_by_eqb. vm_compute. reflexivity. }
   pose proof dddd_wednesday as W. rewrite Hc in W. unfold the_tokens in W. rewrite Ht in W.
   specialize (Hp w_now w_wed [] (civil_ok_wed l) (or_introl eq_refl)). rewrite app_nil_r in Hp. congruence.
 Qed.
